@@ -78,7 +78,9 @@ fn main() {
     };
     let mut ctx = Ctx::new(pid, tier);
     if pid == "C01" || pid == "C19" {
-        total::start_watchdog(20_000);
+        // (60 s without progress on one input: generous, so that a machine under heavy load does
+        // not make a healthy run inconclusive; a real hang is confirmed by bounded re-runs anyway)
+        total::start_watchdog(60_000);
     }
     regress::run(pid);
     regress::done(pid);
